@@ -22,7 +22,8 @@ impl Prop for C26 {
     fn gen(&self, rng: &mut Rng, n: usize, tier: Tier, out: &mut Vec<String>) {
         // (1) deterministic boundary part: every comparison of the three computations below, at and
         // above its threshold (1 µs apart), every arm of the hint rule
-        for timeout in [1i64, 100, 5000] {
+        // (0 = everything queued is stale at once; a negative timeout becomes a huge u64: never stale)
+        for timeout in [1i64, 100, 5000, 0, -1] {
             for hint in [0i64, 1, timeout - 1, timeout, timeout + 1, 4_000_000_000] {
                 if hint < 0 {
                     continue;
@@ -64,7 +65,7 @@ impl Prop for C26 {
         }
         // (2) random part
         for _ in 0..n {
-            let timeout: i64 = *rng.pick(&[30_000i64, 30_000, 5_000, 100, 1]);
+            let timeout: i64 = *rng.pick(&[30_000i64, 30_000, 5_000, 100, 1, 0, -1]);
             let interval_ms: i64 = *rng.pick(&[100i64, 250, 1000]);
             let samp_ms: i64 = *rng.pick(&[-1i64, 100, 250, 1000]);
             out.push(format!("reset {} {} {}", timeout, interval_ms, samp_ms));
@@ -164,8 +165,15 @@ impl R {
                 None => i128::MAX,
             };
             let hint = *hint as i64;
-            let eff_ms: i64 = if hint > 0 && hint < self.timeout { hint } else { self.timeout };
-            if !(elapsed_us > eff_ms as i128 * 1000) {
+            // (a negative server timeout is used as a u64: practically never)
+            let eff_ms: i128 = if hint > 0 && hint < self.timeout {
+                hint as i128
+            } else if self.timeout >= 0 {
+                self.timeout as i128
+            } else {
+                u64::MAX as i128 + 1 + self.timeout as i128
+            };
+            if !(elapsed_us > eff_ms * 1000) {
                 return Verdict::fail(
                     "timeout_only_after",
                     class,
